@@ -526,3 +526,19 @@ Definition compute_order (es_nodes : list nat) (ds : list (nat * nat)) (pref : l
    ("unable to find extension %s on which extension %s depends") *)
 Definition missing_dependency (es_nodes : list nat) (ds : list (nat * nat)) : bool :=
   existsb (fun d => negb (mem (fst d) es_nodes)) ds.
+
+(* ---- lists the service accepts WITH repetitions ----------------------------------------------------
+   service::extensions may name the same extension more than once (configuration validation only checks
+   that every reference is configured).  extensions.New creates an instance per ENTRY but stores it in
+   extMap keyed by ID (the later instance replaces the earlier one), and computeOrder builds its nodes
+   from extMap: the extension SET is the de-duplicated list, each ID once.  The same holds for the
+   receivers / exporters lists of a pipeline (graph nodes are keyed by (signal, id): createReceiver /
+   createExporter return the existing node); duplicate processors are rejected by the validation
+   ("references processor %q multiple times"). *)
+Fixpoint dedup (l : list nat) : list nat :=
+  match l with
+  | [] => []
+  | x :: r => if mem x r then dedup r else x :: dedup r
+  end.
+
+Definition extensions_new (configured : list nat) : list nat := dedup configured.
